@@ -23,6 +23,7 @@ class MemFS(object):
         self.complete = complete            # callable(fn, label): schedule completion of an aio op
         self.on_effect = None               # callable(k) after the k-th effect was applied
         self.short_chooser = None           # Chooser: an aio request may complete for fewer bytes than asked (legal for pyaio)
+        self.keeper_missing = []            # aio requests that were in flight without a live keep-awake greenlet
         self.fail_at = None                 # int k: the k-th counted request (create temp file, aio write, rename) fails with ENOSPC
         self.io_count = 0
         self.O_RDONLY = _os.O_RDONLY
@@ -102,7 +103,23 @@ class MemFS(object):
         return fd, path
 
     # ---- pyaio shims
+    def _keeper_alive(self, when, label):
+        """pyaio completions are only delivered while the loop is kept awake: a request in flight needs the keep-awake greenlet"""
+        try:
+            import slimta.diskstorage as ds
+            t = ds.AioFile._keep_awake_thread
+        except Exception:
+            return
+        if t is None or getattr(t, 'dead', False):
+            self.keeper_missing.append('%s %s' % (when, label))
+
     def _schedule(self, fn, label):
+        self._keeper_alive('issued', label)
+        fn0 = fn
+
+        def fn():
+            self._keeper_alive('completing', label)
+            fn0()
         if self.complete is not None:
             self.complete(fn, label)
         else:
